@@ -60,21 +60,53 @@ class C11(scen.WorldProp):
         return {"k": "world", "scenario": sc, "t0": t0, "speed_text": None, "humans_before": humans,
                 "lags": [rng.choice([0.05, 0.2, 0.4, 0.8]) for _ in range(5)]}
 
+    def after_interrupted(self, rng, tier):
+        """Server mode: a ringer walks away in the middle of a touch, so Wheatley is held up; their bells
+        are given to Wheatley, the bells are set at hand, and Stop Touch and Look To arrive back to back
+        while the main thread is still inside that hold-up.  The new touch is Wheatley's alone."""
+        from harness.props.c19 import method_msg
+        N = rng.choice([4, 6, 8])
+        ps = rng.choice([120, 178, 200])
+        g = rng.choice([0.0, 1.0, 1.0, 2.0])
+        I = scen.interval(ps, N)
+        row_t = I * (N + 1)
+        humans = sorted(rng.sample(range(2, N + 1), rng.randint(1, 2)))
+        wb = [b for b in range(1, 17) if b not in humans]
+        tA = 1000.3 + rng.random()
+        t_away = tA + 3 + rng.uniform(1.0, 3.0) * row_t
+        t0 = t_away + row_t + rng.uniform(1.0, 6.0)
+        events = [[tA - 0.2, "msg", method_msg(N)], call(tA, LOOK_TO)]
+        events += [[t0 - 0.5, "msg", {"m": "assign", "bell": b, "user": 5}] for b in humans]
+        events += [[t0 - 0.3, "msg", {"m": "global_state", "state": [True] * N}],
+                   [t0 - rng.choice([0.001, 0.002, 0.004, 0.05, 0.2]), "msg", {"m": "stop_touch"}], call(t0, LOOK_TO)]
+        rows = rng.randint(3, 10)
+        end = t0 + 3 + I * scen.blow_index(N, g, rows, 0) + 0.5 * I
+        sc = {"start": 1000.0, "end": end, "tower_size": N, "events": events,
+              "on_join": scen.humans_on_join(humans, "Wheatley", wb),
+              "bot": scen.bot_cfg({"type": "placeholder"}, up_down_in=True, user_name="Wheatley", server_id=4),
+              "rhythm": scen.rhythm_cfg("wait", inertia=rng.choice([0.0, 0.5, 1.0, 1.0]), peal_speed=ps, gap=g)}
+        return {"k": "world", "scenario": sc, "t0": t0, "speed_text": None, "humans_before": humans,
+                "lags": [rng.choice([0.0, 0.05, 0.2]) for _ in range(5)], "stop_at": t_away}
+
     def agents(self, req):
         if "humans_before" not in req:
             return None
         lags = req["lags"]
         return lambda s: [scen.Follower(s, req["humans_before"], lambda r, p: lags[(r + p) % len(lags)],
-                                        stop=req["t0"] - 1)]
+                                        stop=req.get("stop_at", req["t0"] - 1))]
 
     def tag(self, req, reply):
-        return ("after-accompanied:" if "humans_before" in req else "") + super().tag(req, reply)
+        return ("after-interrupted:" if "stop_at" in req else "after-accompanied:" if "humans_before" in req else "") \
+            + super().tag(req, reply)
 
     def cases(self, rng, tier):
         n = 200 if tier == "quick" else 1500
         for i in range(n):
             if i % 5 == 4:
                 yield self.after_accompanied(rng, tier)
+                continue
+            if i % 10 == 7:
+                yield self.after_interrupted(rng, tier)
                 continue
             N = rng.randint(4, 16)
             m, s = speed_strings(rng)
